@@ -38,6 +38,10 @@ fn main() {
         usage();
     }
     let id = args[0].to_uppercase();
+    if id == "SERVE" {
+        // child mode of the layered-configuration family: Config::read() + passage::start
+        std::process::exit(vh::layers::serve());
+    }
     let mut tier = match std::env::var("VERIF_TIER").as_deref() {
         Ok("thorough") => Tier::Thorough,
         _ => Tier::Quick,
